@@ -545,6 +545,26 @@ def ser_stubs(cx, engine):
     def h_newvec(engine, st, fr, callee, argv, m):
         return Opaque("Vec<Value>", "fresh", {"items": ()})
 
+    def h_box_uninit(engine, st, fr, callee, argv, m):
+        # first half of the `vec![a, b, ..]` expansion: an uninitialised boxed array (a heap object of the engine)
+        n = st.notes.get("nbox", 0) + 1
+        st.notes["nbox"] = n
+        key = "vecmacro_%d" % n
+        st.heap[key] = Agg("tuple", None, [])
+        return Agg("struct", "Box", [Agg("struct", "Unique", [Ref(("H", key))])])
+
+    def h_box_into_vec(engine, st, fr, callee, argv, m):
+        # second half: the initialised array becomes the vector's contents, in order
+        b = unref(st, argv[0]) if not isinstance(argv[0], Agg) else argv[0]
+        try:
+            r = b.fields[0].fields[0]
+            arr = engine.load(st, r.addr + (("f", 1), ("f", 0), ("f", 0)))
+        except Exception:  # noqa
+            raise Unsupported("vec! expansion of unexpected shape: %r" % (b,))
+        if not isinstance(arr, Agg):
+            raise Unsupported("vec! expansion without array contents: %r" % (arr,))
+        return Opaque("Vec<Value>", "vec!", {"items": tuple(term_of(st, x) for x in arr.fields)})
+
     def h_take(engine, st, fr, callee, argv, m):
         cur = engine.load(st, argv[0].addr)
         engine.store(st, argv[0].addr, EnumV("Option", 0, {}))
@@ -561,6 +581,8 @@ def ser_stubs(cx, engine):
         (re.compile(r"^(to_value::<|<\w+ as Serialize>::serialize::<)"), h_ser),
         (re.compile(r"^Vec::<Value>::push$"), h_push),
         (re.compile(r"^Vec::<Value>::(with_capacity|new)$"), h_newvec),
+        (re.compile(r"^Box::<\[Value; \d+\]>::new_uninit$"), h_box_uninit),
+        (re.compile(r"^(?:std::boxed::)?box_assume_init_into_vec_unsafe::<Value, \d+>$"), h_box_into_vec),
         (re.compile(r"^(?:std::option::)?Option::<usize>::map_or_else::<Vec<Value>"), h_newvec),
         (re.compile(r"^(?:std::option::)?Option::<Value>::take$"), h_take),
         (re.compile(r"^<&(str|\[u8\]) as Into<Box<(str|\[u8\])>>>::into$"), h_keep),
